@@ -2785,6 +2785,12 @@ fn eval_c15(case: &Case) -> Eval {
         if !it.constructed {
             continue;
         }
+        // (the solo run drives the first device: only iterators whose device is the same
+        // are comparable - generated cases clone one device for all iterators; a candidate
+        // of the shrinker that simplifies one device but not the other must not "reproduce")
+        if case.duts.get(i) != case.duts.first() {
+            continue;
+        }
         let view = iter_view(it);
         // an interleaved iterator may have been stepped fewer times: compare the prefix;
         // extra next() after None only add None items
